@@ -7,6 +7,15 @@ brace block), the handler function (macro instantiations expanded) and the opcod
 A site that raises VM_EXCEPTION without assigning machine->exception in its block has exceptions == []:
 the clause that takes the fault then depends on whatever was raised before (history) - the check reports
 it on the spot.  vm_execute_rethrow is the one legitimate exception-preserving site.
+
+Raise helpers: a plain function of the same file whose body sets `machine->running = VM_EXCEPTION` and
+assigns `machine->exception = <one of its own parameters>` (e.g. `static void vm_raise(vm * machine, int
+exception)`) raises nothing by itself; every CALL of it is a site (site["via"] = helper name) whose exception
+is the EXCEPT_ constant written in that argument position.  A call whose argument is not an EXCEPT_ constant
+(a variable, machine->exception, ...) has exceptions == [] and is reported like any other such site; a
+function that sets VM_EXCEPTION and does not assign machine->exception from a parameter is no helper and
+stays an ordinary site.  helper_assignments(repo) lists the assignments inside helpers, so that the caller
+can still account for every `machine->running = VM_EXCEPTION` of the sources.
 """
 import os
 import re
@@ -83,6 +92,71 @@ def _functions(lines):
     return out
 
 
+RAISE_RE = r"machine->running\s*=\s*VM_EXCEPTION"
+
+
+def _split_args(s):
+    """top-level comma split of an argument list"""
+    out, depth, cur = [], 0, ""
+    for ch in s:
+        if ch in "([":
+            depth += 1
+        elif ch in ")]":
+            depth -= 1
+        if ch == "," and depth == 0:
+            out.append(cur.strip())
+            cur = ""
+        else:
+            cur += ch
+    if cur.strip() or out:
+        out.append(cur.strip())
+    return out
+
+
+def _raise_helpers(lines, funcs):
+    """-> {helper name: (index of the parameter stored into machine->exception, first line, last line)}"""
+    out = {}
+    for (name, macro, mparams, a, b) in funcs:
+        if macro:
+            continue
+        body = "\n".join(lines[a:b + 1])
+        if not re.search(RAISE_RE, body):
+            continue
+        head = re.search(r"\b%s\s*\(([^)]*)\)" % re.escape(name), body)
+        if not head:
+            continue
+        params = [re.sub(r"\[.*?\]", "", p).strip().split()[-1].lstrip("*") if p.strip() else "" for p in _split_args(head.group(1))]
+        assigned = re.findall(r"machine->exception\s*=\s*\(?\s*(?:\(\s*\w+\s*\)\s*)?(\w+)\s*\)?\s*;", body)
+        if len(assigned) == 1 and assigned[0] in params and not assigned[0].startswith("EXCEPT_"):
+            out[name] = (params.index(assigned[0]), a, b)
+    return out
+
+
+def _helper_call(line, helpers):
+    """-> (helper, [EXCEPT_ constants in the exception argument]) for a call of a raise helper on this line, else None"""
+    for h, (pos, _a, _b) in helpers.items():
+        m = re.search(r"\b%s\s*\((.*)\)\s*;" % re.escape(h), line)
+        if m:
+            args = _split_args(m.group(1))
+            arg = args[pos] if pos < len(args) else ""
+            return h, ([arg] if re.fullmatch(r"EXCEPT_\w+", arg) else [])
+    return None
+
+
+def helper_assignments(repo):
+    """[(file, line)] of the `machine->running = VM_EXCEPTION` assignments that live inside raise helpers"""
+    out = []
+    back = os.path.join(repo, "back")
+    for fname in ("vmexec.c", "libvm.c", "vmffi.c"):
+        path = os.path.join(back, fname)
+        if not os.path.exists(path):
+            continue
+        lines = _strip_comments(open(path).read()).split("\n")
+        for h, (_pos, a, b) in _raise_helpers(lines, _functions(lines)).items():
+            out += [(fname, i + 1) for i in range(a, b + 1) if re.search(RAISE_RE, lines[i])]
+    return out
+
+
 def sites(repo):
     res = []
     back = os.path.join(repo, "back")
@@ -98,8 +172,11 @@ def sites(repo):
         text = _strip_comments(open(path).read())
         lines = text.split("\n")
         funcs = _functions(lines)
+        helpers = _raise_helpers(lines, funcs)
         for (name, macro, mparams, a, b) in funcs:
-            hits = [i for i in range(a, b + 1) if re.search(r"machine->running\s*=\s*VM_EXCEPTION", lines[i])]
+            if not macro and name in helpers:
+                continue                      # raises what its callers pass: the calls are the sites
+            hits = [i for i in range(a, b + 1) if re.search(RAISE_RE, lines[i]) or _helper_call(lines[i], helpers)]
             if not hits:
                 continue
             found = []
@@ -107,7 +184,11 @@ def sites(repo):
                 ba, bb = _block_bounds(lines, i)
                 ba, bb = max(ba, a), min(bb, b)
                 blk = "\n".join(lines[ba:bb + 1])
-                excs = sorted(set(re.findall(r"machine->exception\s*=\s*(EXCEPT_\w+)", blk)))
+                call = None if re.search(RAISE_RE, lines[i]) else _helper_call(lines[i], helpers)
+                if call:
+                    excs = call[1]            # the constant handed to the helper, nothing else counts
+                else:
+                    excs = sorted(set(re.findall(r"machine->exception\s*=\s*(EXCEPT_\w+)", blk)))
                 # which `case` of a switch the site belongs to (libvm built-ins)
                 label = None
                 for k in range(i, a, -1):
@@ -119,7 +200,7 @@ def sites(repo):
                         break
                 if fname == "libvm.c" and len(excs) > 1:
                     label = "status-flags"
-                found.append((ordinal, i + 1, excs, label))
+                found.append((ordinal, i + 1, excs, label, call[0] if call else None))
             if macro:
                 # one instance per invocation `macro(args)` at the start of a line
                 insts = re.findall(r"^%s\(([^)]*)\)\s*$" % re.escape(macro), text, re.M)
@@ -129,17 +210,17 @@ def sites(repo):
                     for p_, v_ in zip(mparams, vals):
                         fn = fn.replace("##" + p_, v_).replace(p_ + "##", v_)
                     fn = fn.replace("#", "")
-                    for ordinal, ln, excs, label in found:
-                        res.append({"file": fname, "line": ln, "func": fn, "ordinal": ordinal, "label": label,
+                    for ordinal, ln, excs, label, via in found:
+                        res.append({"file": fname, "line": ln, "func": fn, "ordinal": ordinal, "label": label, "via": via,
                                     "exceptions": [EXC_NAME.get(e, e) for e in excs], "opcodes": disp.get(fn, [])})
             else:
-                for ordinal, ln, excs, label in found:
+                for ordinal, ln, excs, label, via in found:
                     ops = disp.get(name, [])
                     if fname == "libvm.c":
                         ops = ["BYTECODE_BUILD_IN"]
                     elif fname == "vmffi.c":
                         ops = ["BYTECODE_FUNC_FFI"]
-                    res.append({"file": fname, "line": ln, "func": name, "ordinal": ordinal, "label": label,
+                    res.append({"file": fname, "line": ln, "func": name, "ordinal": ordinal, "label": label, "via": via,
                                 "exceptions": [EXC_NAME.get(e, e) for e in excs], "opcodes": ops})
     # helpers that are not dispatched themselves: the opcodes of the handlers that call them
     lines_vx = vx.split("\n")
